@@ -20,9 +20,12 @@ from pathlib import Path
 ROOT = Path(__file__).resolve().parent.parent          # /verif
 LEAN = ROOT / 'lean'
 DRIVER = LEAN / '.lake' / 'build' / 'bin' / 'driver'
-REPO = Path(os.environ.get('VERIF_REPO', '/repo'))
+DEFAULT_REPO = Path('/repo')
+REPO = Path(os.environ.get('VERIF_REPO') or DEFAULT_REPO)
 ALLOWED_AXIOMS = {'propext', 'Classical.choice', 'Quot.sound'}
-FORBIDDEN = re.compile(r'\b(sorry|admit|native_decide|bv_decide|implemented_by|unsafe)\b|^\s*axiom\s|maxHeartbeats\s+0\b')
+FORBIDDEN = re.compile(r'\b(sorry|sorryAx|admit|native_decide|bv_decide|implemented_by|unsafe|opaque)\b|^\s*axiom\s|'
+                       r'@\[\s*extern|^\s*(?:private\s+|protected\s+)?partial\s+def|maxHeartbeats\s+(?:0\b|[0-9]{7,})')
+LOCK = LEAN / 'theorems.lock.json'
 
 
 # --------------------------------------------------------------------------
@@ -131,9 +134,11 @@ def lean_obligations(pid: str, modules: list, tier: str, log) -> dict:
             mm = re.match(r'\s*end\s+(\S+)\s*$', line)
             if mm and ns and ns[-1].split('.')[-1] == mm.group(1).split('.')[-1]:
                 ns.pop(); continue
-            mm = re.match(r'\s*(?:@\[[^\]]*\]\s*)?(?:private\s+|protected\s+)?theorem\s+([^\s:({\[]+)', line)
-            if mm:
-                names.append('.'.join(ns + [mm.group(1)]))
+            mm = re.match(r'\s*(?:@\[[^\]]*\]\s*)?(private\s+|protected\s+)?(?:theorem|lemma)\s+([^\s:({\[]+)', line)
+            if mm and not (mm.group(1) or '').startswith('private'):
+                # (private helper lemmas cannot be named from outside; they are covered transitively by the
+                # axiom audit of the public theorems that use them and by the token scan)
+                names.append('.'.join(ns + [mm.group(2)]))
     res['obligations'] = len(names)
     # forbidden tokens anywhere in our sources reachable from the property modules
     for f in lean_files_for(modules):
@@ -141,24 +146,37 @@ def lean_obligations(pid: str, modules: list, tier: str, log) -> dict:
         for n, line in enumerate(src.splitlines(), 1):
             if FORBIDDEN.search(line):
                 res['problems'].append(f'forbidden token in {f.relative_to(LEAN)}:{n}: {line.strip()[:80]}')
+    if r.returncode == 0 and not names:
+        res['problems'].append('no theorem found in ' + ', '.join(modules))
+    res['statements'] = {}
     if r.returncode == 0 and names:
         audit = LEAN / 'Audit' / f'{pid}.lean'
         audit.parent.mkdir(exist_ok=True)
-        audit.write_text(''.join(f'import {m}\n' for m in modules) +
-                         ''.join(f'#print axioms {n}\n' for n in names))
-        ra = run(['lake', 'env', 'lean', str(audit.relative_to(LEAN))], cwd=LEAN, timeout=1800)
+        head = [f'import {m}' for m in modules]
+        body = []
+        for n in names: body += [f'#print axioms {n}', f'#check @{n}']
+        audit.write_text('\n'.join(head + body) + '\n')
+        ra = run(['lake', 'env', 'lean', '--json', str(audit.relative_to(LEAN))], cwd=LEAN, timeout=1800)
         out = ra.stdout
-        # parse: "'name' depends on axioms: [a, b]" or "'name' does not depend on any axioms"
-        out1 = re.sub(r'\s+', ' ', out)
-        for n in names:
-            m1 = re.search(r"'" + re.escape(n) + r"' depends on axioms: \[([^\]]*)\]", out1)
-            m2 = re.search(r"'" + re.escape(n) + r"' does not depend on any axioms", out1)
+        by_line = {}
+        for l in out.splitlines():
+            try:
+                d = json.loads(l)
+                by_line.setdefault(d['pos']['line'], []).append(d.get('data', ''))
+            except Exception:
+                continue
+        for i, n in enumerate(names):
+            la, lc = len(head) + 2 * i + 1, len(head) + 2 * i + 2
+            msg = re.sub(r'\s+', ' ', ' '.join(by_line.get(la, [])))
+            m1 = re.search(r"depends on axioms: \[([^\]]*)\]", msg)
             if m1:
                 ax = [a.strip() for a in m1.group(1).split(',') if a.strip()]
-            elif m2:
+            elif 'does not depend on any axioms' in msg:
                 ax = []
             else:
                 ax = None
+            stmt = re.sub(r'\s+', ' ', ' '.join(by_line.get(lc, []))).strip()
+            if stmt: res['statements'][n] = hashlib.sha256(stmt.encode()).hexdigest()[:16]
             res['theorems'][n] = ax
             if ax is None:
                 res['problems'].append(f'theorem {n}: no #print axioms answer')
@@ -172,6 +190,16 @@ def lean_obligations(pid: str, modules: list, tier: str, log) -> dict:
                     if a not in res['axioms_seen']: res['axioms_seen'].append(a)
         if ra.returncode != 0 and not res['problems']:
             res['problems'].append('audit file failed: ' + out[-500:])
+        # the lock: names and statements recorded when the theorems were last reviewed (tools/lock_theorems.py).  A
+        # theorem that disappeared, or whose statement changed, is a broken obligation even if everything still builds.
+        if LOCK.exists():
+            lock = json.loads(LOCK.read_text()).get(pid, {})
+            for n, h in lock.items():
+                if n not in res['statements']:
+                    res['problems'].append(f'theorem {n} is recorded in lean/theorems.lock.json but is no longer proved')
+                elif res['statements'][n] != h:
+                    res['problems'].append(f'the statement of theorem {n} differs from the one recorded in lean/theorems.lock.json')
+            res['unlocked'] = [n for n in res['statements'] if n not in lock]
     if tier == 'thorough' and r.returncode == 0:
         t1 = time.time()
         rc = run(['lake', 'env', 'leanchecker'] + modules, cwd=LEAN, timeout=3600)
@@ -255,7 +283,7 @@ def load_known(pid):
 # evidence
 # --------------------------------------------------------------------------
 
-def write_evidence(pid, tier, seed, lean, stats, assumptions, trusted, violations, wall, extra=None):
+def write_evidence(pid, tier, seed, lean, stats, assumptions, trusted, violations, wall, extra=None, official=True):
     ev = {
         'property_id': pid,
         'tier': tier,
@@ -268,12 +296,14 @@ def write_evidence(pid, tier, seed, lean, stats, assumptions, trusted, violation
                            + ('; lake env leanchecker' if tier == 'thorough' else '') + ')',
             'trusted_base': trusted + [f'axioms actually used: {sorted(lean["axioms_seen"])}'],
             'theorems': lean['theorems'],
+            'theorem_statement_hashes': lean.get('statements', {}),
+            'theorems_not_in_lock': lean.get('unlocked', []),
             'proof_problems': lean['problems'],
             'evaluations': stats['evaluations'],
             'distinct_nontrivial': stats['distinct_nontrivial'],
             'rule': stats['rule'],
             'samples': stats['samples'],
-            'traces_validated_against_impl': stats['evaluations'],
+            'traces_validated_against_impl': stats.get('traces', 0),   # cases with at least one protocol line compared
             'model_lines_compared': stats['lines'],
             'disagreements': stats['disagreements'],
             'oracle_failures': stats['oracle_failures'],
@@ -285,8 +315,10 @@ def write_evidence(pid, tier, seed, lean, stats, assumptions, trusted, violation
         'violations': violations,
     }
     if extra: ev['coverage'].update(extra)
-    d = ROOT / 'evidence'
+    ev['repo'] = str(REPO)
+    d = ROOT / ('evidence' if official else 'logs')
     d.mkdir(exist_ok=True)
+    if not official: pid = pid + '.evidence'
     tmp = d / f'.{pid}.json.tmp'
     tmp.write_text(json.dumps(ev, indent=1, default=str))
     tmp.replace(d / f'{pid}.json')
